@@ -113,6 +113,24 @@ def check_obligation(pc: list, goal: Any, timeout_ms: int, second: bool = True, 
                 os.unlink(path)
             except OSError:
                 pass
+    # last resort before "undecided": the two z3 cores again with a long budget (a verdict must not flip because the machine is busy)
+    long_ms = max(90000, 8 * timeout_ms)
+
+    def job_long() -> Any:
+        for core in (2, None):
+            s3 = z3.Solver()
+            if core is not None:
+                s3.set("smt.arith.solver", core)
+            s3.set("timeout", long_ms // 2)
+            for c in s.assertions():
+                s3.add(c)
+            if s3.check() == z3.unsat:
+                return "unsat"
+        return "unknown"
+
+    st, out = run_hard(job_long, long_ms / 1000.0 + 15.0)
+    if st == "ok" and out == "unsat":
+        return SolveResult("unsat", "z3-" + z3.get_version_string() + "-long", time.time() - t0)
     return SolveResult("unknown", "z3+z3-4.8+cvc5", time.time() - t0, reason=reason)
 
 
